@@ -524,12 +524,10 @@ Proof.
   (* one of the four comparisons succeeds *)
   assert (Hform : name = make_sfn UB UE \/ name = make_sfn UB (map lower_b UE) \/
                   name = make_sfn (map lower_b UB) UE \/ name = make_sfn (map lower_b UB) (map lower_b UE)).
-  { unfold name, make_sfn, UE in *. destruct ext as [|e ext']; cbn [map];
-      [destruct Cb as [Cb|Cb]; rewrite Cb; auto|].
-    destruct Cb as [Cb|Cb], Ce as [Ce|Ce]; cbn [map] in Ce; rewrite ?Cb, ?Ce; auto.
-    - right. left. rewrite Cb. reflexivity.
-    - right. right. left. rewrite Cb. f_equal. f_equal. exact (eq_sym Ce).
-    - right. right. right. rewrite Cb. reflexivity. }
+  { destruct ext as [|e ext'].
+    - destruct Cb as [Cb|Cb]; [left|right; right; left]; rewrite Cb; reflexivity.
+    - destruct Cb as [Cb|Cb], Ce as [Ce|Ce];
+        [left|right; left|right; right; left|right; right; right]; rewrite Cb, Ce; reflexivity. }
   assert (Hc : exists attr, case_attr name UB UE = Some attr).
   { unfold case_attr. unfold UB at 1, UE at 1. rewrite !map_length.
     replace (Nat.leb (length base) 8) with true by (symmetry; apply Nat.leb_le; lia).
@@ -543,4 +541,42 @@ Proof.
   destruct Hc as [attr Hc]. exists attr.
   pose proof (short_only_shows_name name up existing entry attr) as T. cbv zeta in T.
   rewrite Hsp in T. cbn [fst snd] in T. rewrite Hl in T. apply T; assumption.
+Qed.
+
+(* ---------- the name test of __getitem__ ---------- *)
+(* an entry answers to the upper-cased long name and to the alias; the first such entry
+   wins, so appending an entry never changes what an existing name resolves to *)
+Lemma lookup_from_hit uname ex : forall i lu s,
+  (beq lu uname || beq s uname = true) ->
+  lookup_from i uname ((lu, s) :: ex) = Some i.
+Proof. intros i lu s H. cbn [lookup_from]. rewrite H. reflexivity. Qed.
+
+Theorem lookup_found uname ex : forall i lu s,
+  In (lu, s) ex -> (lu = uname \/ s = uname) ->
+  exists j, lookup_from i uname ex = Some j.
+Proof.
+  induction ex as [|[lu' s'] ex IH]; intros i lu s Hin Hm; [contradiction|].
+  cbn [lookup_from]. destruct (beq lu' uname || beq s' uname) eqn:E; [eauto|].
+  destruct Hin as [Hin|Hin]; [|apply (IH (i + 1) lu s Hin Hm)].
+  inversion Hin; subst. apply orb_false_iff in E as [E1 E2].
+  destruct Hm as [->| ->]; [rewrite (proj2 (beq_eq uname uname) eq_refl) in E1
+                           |rewrite (proj2 (beq_eq uname uname) eq_refl) in E2]; discriminate.
+Qed.
+
+Theorem lookup_stable uname ex new : forall i j,
+  lookup_from i uname ex = Some j -> lookup_from i uname (ex ++ [new]) = Some j.
+Proof.
+  induction ex as [|[lu s] ex IH]; intros i j H; [discriminate|].
+  cbn [app lookup_from] in *. destruct (beq lu uname || beq s uname); [exact H|]. apply IH, H.
+Qed.
+
+Theorem lookup_new uname ex lu s : forall i,
+  lookup_from i uname ex = None ->
+  lookup_from i uname (ex ++ [(lu, s)]) =
+  if beq lu uname || beq s uname then Some (i + N.of_nat (length ex)) else None.
+Proof.
+  induction ex as [|[lu' s'] ex IH]; intros i H.
+  - cbn [app lookup_from length N.of_nat]. rewrite N.add_0_r. destruct (_ || _); reflexivity.
+  - cbn [app lookup_from] in *. destruct (beq lu' uname || beq s' uname); [discriminate|].
+    rewrite (IH (i + 1) H). cbn [length]. destruct (_ || _); [f_equal; lia|reflexivity].
 Qed.
